@@ -2,7 +2,9 @@ import LaunchpadModel.Model.Sg1
 /-!
 # C06 — Fee splits are exact: parts always sum to the fee, in the documented ratios
 
-All statements are over `F : Nat` (hence the whole `u128` range), every denom, every developer option.
+All statements are over `F : Nat` (hence the whole `u128` range) and every developer option; the function-level statements
+(`C06_distribute_*`, `C06_creation_fee_nonnative_path`, `C06_ibc_sum`) are for every denom, the caller statements (`C06_caller_*`) for
+native-priced mints only.
 `FEE_BURN_PERCENT` is read from `Generated/Constants.lean` (regenerated from `packages/sg1/src/lib.rs`
 on every run); the theorems below only check while it is 50.
 -/
@@ -105,10 +107,16 @@ theorem C06_checked_zero (funds : List Coin) (self : Addr) (dev : Option Addr)
     checkedFairBurn funds self 0 dev = .ok [] := by
   simp [checkedFairBurn, hp, bind, Except.bind, pure, Except.pure]
 
-/-! ## Non-native fees -/
+/-! ## Non-native fees
 
-/-- "fees in a non-native denom go in full to the launchpad DAO" (and a payment below the fee is rejected) -/
-theorem C06_nonnative (funds : List Coin) (fee : Nat) (denom : Denom) :
+Scope: the clause "fees in a non-native denom go in full to the launchpad DAO" is anchored in `transfer_funds_to_launchpad_dao`,
+whose only callers are the factories' CREATION-fee branch (`creationFeeMsgs` below). A MINT fee never takes this path: the minters
+call `distribute_mint_fees(coin(fee, mint_price.denom), …)`, which keeps the published split in whatever denom the price has
+(`C06_distribute_*`, stated for every denom; `C06_mint_fee_nonnative_keeps_split` below is the concrete instance). -/
+
+/-- "fees in a non-native denom go in full to the launchpad DAO" (and a payment below the fee is rejected) — for fees taken through
+`transfer_funds_to_launchpad_dao`, i.e. the creation-fee path; says nothing about mint fees (see the section header) -/
+theorem C06_creation_fee_nonnative_path (funds : List Coin) (fee : Nat) (denom : Denom) :
     transferFundsToLaunchpadDao funds fee denom =
       match mustPay funds denom with
       | .error e => .error e
@@ -118,11 +126,25 @@ theorem C06_nonnative (funds : List Coin) (fee : Nat) (denom : Denom) :
   | error e => simp [bind, Except.bind]
   | ok p => by_cases hlt : p < fee <;> simp [hlt, bind, Except.bind, pure, Except.pure, throw, throwThe, MonadExceptOf.throw]
 
-/-- the whole payment, not just the fee, is forwarded -/
+/-- alias of `C06_creation_fee_nonnative_path` (kept because other modules refer to it) -/
+theorem C06_nonnative (funds : List Coin) (fee : Nat) (denom : Denom) :
+    transferFundsToLaunchpadDao funds fee denom =
+      match mustPay funds denom with
+      | .error e => .error e
+      | .ok p => if p < fee then .error .insufficientFee else .ok [Msg.send LAUNCHPAD_DAO ⟨denom, p⟩] :=
+  C06_creation_fee_nonnative_path funds fee denom
+
+/-- a MINT fee in a non-native denom is NOT forwarded in full: it keeps the published split, liquidity-DAO share included
+(plain minter, denom 1, fee 10: 2 to the liquidity DAO, 8 to the launchpad DAO). Instance of `C06_distribute_nodev`. -/
+theorem C06_mint_fee_nonnative_keeps_split :
+    distributeMintFees ⟨1, 10⟩ false none = [Msg.send LIQUIDITY_DAO ⟨1, 2⟩, Msg.send LAUNCHPAD_DAO ⟨1, 8⟩] ∧ (1 : Denom) ≠ NATIVE := by
+  decide
+
+/-- the whole payment, not just the fee, is forwarded (creation-fee path) -/
 theorem C06_nonnative_full (c : Coin) (fee : Nat) (hnz : c.amount ≠ 0) (hge : fee ≤ c.amount) :
     transferFundsToLaunchpadDao [c] fee c.denom = .ok [Msg.send LAUNCHPAD_DAO ⟨c.denom, c.amount⟩] := by
   have : ¬ c.amount < fee := by omega
-  simp [C06_nonnative, mustPay, hnz, this]
+  simp [C06_creation_fee_nonnative_path, mustPay, hnz, this]
 
 /-! ## IBC fair burn (not in the property text; same exactness) -/
 theorem C06_ibc_sum (denom : Denom) (F : Nat) (dev : Option Addr) :
@@ -141,7 +163,8 @@ theorem C06_creation_fee_native (self fee pay : Nat) (hp : fee ≤ pay) (hz : pa
   unfold creationFeeMsgs
   rw [if_pos rfl, C06_checked_ok [⟨NATIVE, pay⟩] self fee none pay (by simp [mayPay]) hp hz, C06_fairburn]
 
-/-- "fees in a non-native denom go in full to the launchpad DAO" -/
+/-- "fees in a non-native denom go in full to the launchpad DAO": a CREATION fee in a non-native denom (exact or over-payment in that
+denom) is forwarded in full -/
 theorem C06_creation_fee_nonnative (self d fee pay : Nat) (hd : d ≠ NATIVE) (hp : fee ≤ pay) (hz : pay ≠ 0) :
     creationFeeMsgs self d fee [⟨d, pay⟩] = .ok [Msg.send LAUNCHPAD_DAO ⟨d, pay⟩] := by
   unfold creationFeeMsgs
@@ -170,7 +193,11 @@ theorem C06_wl_fee_telescopes (per old new : Nat) (h : old ≤ new) :
 /-! ## The callers (which minter passes which flag and developer)
 
 `mintFeeMsgs k price b dev` is what one public mint on minter kind `k` emits for the network fee (`Model/Sg1.lean`; validated
-against real minters of all nine priced kinds created through their factories: `mintfee` lines of the harness). -/
+against real minters of the nine kinds 0..8 created through their factories: `mintfee` lines of the harness).
+
+Scope: NATIVE-priced minters only. `mintFeeMsgs` hard-codes `⟨NATIVE, fee⟩` and the `mintfee` lines only mint at native prices,
+whereas every real caller passes `mint_price.denom`; a non-native-priced mint is not modelled by the `C06_caller_*` theorems (the
+split itself is proved for every denom by `C06_distribute_*`; C07's `feeSendable` uses the price denom). -/
 
 /-- "one eighth for featured minters": the three featured minters, no developer -/
 theorem C06_caller_featured (k price b : Nat) (dev : Addr) (hk : callerFeatured k = true) (hf : mulFloor price (bps b) ≠ 0) :
@@ -185,7 +212,10 @@ theorem C06_caller_featured (k price b : Nat) (dev : Addr) (hk : callerFeatured 
   simp only [hf, if_false, hk, hd, Bool.false_eq_true]
   rw [C06_distribute_nodev]; simp [liqDen]
 
-/-- the three plain vending minters: one fifth, no developer -/
+/-- any index with both flags false: one fifth, no developer. This is a statement about the model's `mintFeeMsgs`; the indices that
+are real `distribute_mint_fees` callers with both flags false are k = 0, 2, 4 (plain vending minters) and k = 9 (token-merge) —
+see `C06_caller_plain_kinds`. It also formally covers k = 10 (base-minter), which does NOT call `distribute_mint_fees` (it
+fair-burns its fee with `checked_fair_burn`), and k > 10, which are no minter: for those it says nothing about the code. -/
 theorem C06_caller_plain (k price b : Nat) (dev : Addr) (hk : callerFeatured k = false) (hd : callerHasDev k = false)
     (hf : mulFloor price (bps b) ≠ 0) :
     mintFeeMsgs k price b dev =
@@ -194,6 +224,16 @@ theorem C06_caller_plain (k price b : Nat) (dev : Addr) (hk : callerFeatured k =
   unfold mintFeeMsgs
   simp only [hf, if_false, hk, hd, Bool.false_eq_true]
   rw [C06_distribute_nodev]; simp [liqDen]
+
+/-- the three plain vending minters and token-merge, by index: one fifth, no developer. (k = 9, token-merge, charges a fee only on an
+admin `MintTo`, on the airdrop price with the airdrop bps; it is not among the `mintfee` harness kinds 0..8, so for k = 9 the two
+flags are read off the source, not validated by C06's harness.) -/
+theorem C06_caller_plain_kinds (k price b : Nat) (dev : Addr) (hk : k = 0 ∨ k = 2 ∨ k = 4 ∨ k = 9)
+    (hf : mulFloor price (bps b) ≠ 0) :
+    mintFeeMsgs k price b dev =
+      let F := mulFloor price (bps b)
+      [ Msg.send LIQUIDITY_DAO ⟨NATIVE, (F + 4) / 5⟩, Msg.send LAUNCHPAD_DAO ⟨NATIVE, F - (F + 4) / 5⟩ ] := by
+  rcases hk with h | h | h | h <;> subst h <;> exact C06_caller_plain _ price b dev rfl rfl hf
 
 /-- the three open-edition minters: developer half first, then one fifth -/
 theorem C06_caller_open_edition (k price b : Nat) (dev : Addr) (hd : callerHasDev k = true) (hf : mulFloor price (bps b) ≠ 0) :
